@@ -434,8 +434,35 @@ def run_shard(cfg):
                 st = BytesIO()
                 S.serialize_value(st, {o: None for o in objs})
                 attacks.append(("many-objects:map-keys-%d" % n_obj, st.getvalue()))
+        # compressed bombs: a few KiB that inflate to many MiB, behind the magic numbers of the usual containers - the decoder reads a
+        # type id, it has no business inflating anything
+        import gzip
+        import zlib
+        import bz2
+        import lzma
+        for n_mib in ((8, 32) if cfg["shard"] % 4 == 0 else (8,)):
+            raw = bytes(n_mib << 20)
+            attacks.append(("bomb:gzip-%dMiB" % n_mib, gzip.compress(raw, 6)))
+            attacks.append(("bomb:zlib-%dMiB" % n_mib, zlib.compress(raw, 6)))
+        if cfg["shard"] % 4 == 1:
+            attacks.append(("bomb:bz2-8MiB", bz2.compress(bytes(8 << 20))))
+            attacks.append(("bomb:xz-8MiB", lzma.compress(bytes(8 << 20))))
+        attacks.append(("bomb:gzip-of-valid-encoding", gzip.compress(valid[0][1])))
+        # for EVERY registered class (library classes that never travel included): thousands of copies of its smallest encoding
+        # ("object with zero fields", 5 bytes) in one sequence - constructing an instance costs what its constructor costs
+        st0 = BytesIO()
+        S.serialize_value(st0, 0)
+        zero = st0.getvalue()
+        n_copies = 2000
+        st1 = BytesIO()
+        S.serialize_value(st1, [None] * n_copies)
+        head = st1.getvalue()[:len(st1.getvalue()) - 2 * n_copies]
+        for tid in sorted(S.SerializableType.registry):
+            attacks.append(("many-empty-objects:type-%d" % tid, head + (struct.pack(">H", tid) + zero) * n_copies))
         for label, b in attacks:
             judge(label, b)
+            if label.startswith("bomb") and len(b) < 1400:
+                judge(label, b, via="client-hello-handler")
         # the real handshake decoders and Request.message on mutated handshake messages
         hs = {k: b for k, b in valid if k != "value"}
         n = cfg["n"]
@@ -570,7 +597,7 @@ def finish(tier, seed, results):
     m = merge(results)
     inconclusive = []
     need(m["counters"], ["inputs", "returned", "raised_ordinary_exception", "control_valid_decoded", "inputs_declared-length", "inputs_nested-declared-length", "inputs_deep-nesting-seq",
-                         "inputs_truncation", "inputs_many-objects", "inputs_bitflip", "inputs_typeid", "inputs_random", "via_client-hello-handler", "via_challenge-handler",
+                         "inputs_truncation", "inputs_many-objects", "inputs_bomb", "inputs_many-empty-objects", "inputs_bitflip", "inputs_typeid", "inputs_random", "via_client-hello-handler", "via_challenge-handler",
                          "via_server-hello-handler", "via_request-message", "decoded_values_inspected", "decoder_line_steps", "post_control_valid_decoded", "post_control_same_value", "post_control_late_classes", "via_load-persistant", "inputs_with_read_meter"], inconclusive)
     if m["counters"].get("watchdog_inconclusive"):
         inconclusive.append("%d inputs exceeded the 5 s wall-clock watchdog" % m["counters"]["watchdog_inconclusive"])
